@@ -133,6 +133,11 @@ FeatFFs == {
          << <<PA(1, "atype", <<"X">>)>>, <<PA(1, "atype", <<"TC">>), PA(2, "atype", <<"TA", "TB">>)>> >>) >>,
   << Lk(<<Z>>, <<WithRep(AtR(1, "a2", OA), "atype", "X")>>, <<>>),
      LkF(<<Z, GT>>, <<AtR(1, "a2", AB), AtR(2, "a1", AB)>>, <<Bond(1, 2, "0.2")>>, <<>>, <<>>, << <<PA(1, "atype", <<"X">>)>> >>) >>,
+  \* a link that carries replace / removal AND patterns: a failing pattern vetoes the replacement and the removal too;
+  \* a pattern on the value the link's own replace would set does not hold (the pattern is judged first)
+  << LkF(<<Z, P1>>, <<WithRep(AtR(1, "a2", AB), "atype", "X"), AtR(2, "a1", AB)>>, <<Bond(1, 2, "0.2")>>, <<>>, <<>>, << <<PA(1, "atype", <<"Q">>)>> >>) >>,
+  << LkF(<<Z, P1>>, <<WithRep(AtR(1, "a2", AB), "atype", "X"), AtR(2, "a1", AB)>>, <<Bond(1, 2, "0.2")>>, <<>>, <<>>, << <<PA(1, "atype", <<"X">>)>> >>) >>,
+  << LkF(<<Z, GT>>, <<AtR(1, "a2", AB), WithDel(AtR(2, "a1", AB))>>, <<Bond(1, 2, "0.2")>>, <<>>, <<>>, << <<PA(1, "atype", <<"Q">>)>> >>) >>,
   \* two links: override, different version, partial overlap, link overriding a block interaction
   << LB(P1, "0.2"), LB(P1, "0.3") >>,
   << LB(P1, "0.2"), LB(GT, "0.3") >>,
@@ -254,10 +259,12 @@ RepFFs == {
   << Lk(<<Z, P1>>, <<WithSel(AtR(1, "s", DE), "atomname", <<"s", "d1">>), AtR(2, "d1", DE)>>, <<Bond(1, 2, "0.2")>>) >> }      \* choice of names: three candidates
 RepDang == { [D |-> WithDang(BlkD, dd), E |-> WithDang(BlkE, de)] :
                dd \in { << Dg("bonds", <<1, 3>>, "0.2") >>, << Dg("bonds", <<2, 3>>, "0.2") >> },      \* first s / last s of D to +d1
-               de \in { << >>, << Dg("bonds", <<1, 3>>, "0.3") >> } }                                    \* an s of E to +d1: indistinguishable from the other
+               de \in { << >>, << Dg("bonds", <<1, 3>>, "0.3") >> } }                                    \* an s of E to +d1: same name and type as the other s, told apart by its index
 NamesDE(n) == [1..n -> {"D", "E"}]
 GsR(u) == UNION { UNION { { <<n, es, nm, NoLab(es), NoLabs(n)>> : nm \in NamesDE(n) } : es \in Graphs(n) } : n \in 1..3 }
 FFsR(u) == { [blocks |-> BlocksDE, links |-> ls] : ls \in RepFFs } \cup { [blocks |-> bl, links |-> ItpLinksOf(bl.D) \o ItpLinksOf(bl.E)] : bl \in RepDang }
+CasesDevRepBeforePattern(u) == { MkCase(2, {{1, 2}}, NoLab({{1, 2}}), <<"A", "A">>, NoLabs(2),
+   << LkF(<<Z, P1>>, <<WithRep(AtR(1, "a2", AB), "atype", "X"), AtR(2, "a1", AB)>>, <<Bond(1, 2, "0.2")>>, <<>>, <<>>, << <<PA(1, "atype", <<"Q">>)>> >>) >>) }
 CasesDevLastOfName(u) == { MkCaseB(2, {{1, 2}}, NoLab({{1, 2}}), <<"D", "D">>, NoLabs(2), BlocksDE,
                                    << Lk(<<Z, P1>>, <<WithSel(AtR(1, "s", DE), "atype", SA), AtR(2, "d1", DE)>>, <<Bond(1, 2, "0.2")>>) >>),
                            MkCaseB(2, {{1, 2}}, NoLab({{1, 2}}), <<"E", "E">>, NoLabs(2), BlocksDE,
@@ -341,7 +348,7 @@ FamCases == CASE Fam \in {"A", "B", "C", "D"} -> {}
               [] Fam = "M" -> PlainF({g \in GsM(0) : g[1] <= 3}, FFsM(0))
               [] Fam = "F" -> PlainF({g \in GsF(0) : g[1] <= 2 \/ g[6] \in {<<1, 2, 3>>, <<2, 1, 3>>, <<3, 1, 2>>}}, FFsF(0))
               [] Fam = "N" -> PlainF({g \in GsN(0) : g[1] <= 3}, FFsN(0))
-              [] Fam = "R" -> PlainF(GsR(0), FFsR(0)) [] Fam = "devLastOfName" -> CasesDevLastOfName(0)
+              [] Fam = "R" -> PlainF(GsR(0), FFsR(0)) [] Fam = "devLastOfName" -> CasesDevLastOfName(0) [] Fam = "devRepBeforePattern" -> CasesDevRepBeforePattern(0)
               [] Fam = "devNoAtomResname" -> CasesDevNoAtomResname(0) [] Fam = "devOrderedPairs" -> CasesDevOrderedPairs(0)
               [] Fam = "E" -> PlainF(GsE(0), FFsE(0))      \* exported families are enumerated chunk by chunk, see XNext
               [] Fam = "small" -> CasesSmall(0) [] Fam = "tiny" -> CasesTiny(0) [] Fam = "small4" -> CasesSmall4(0) [] Fam = "gate" -> {} [] Fam = "missing" -> CasesMissing(0) [] Fam = "missingS" -> Plain({g \in GN(2) : TRUE}, { << >> })
@@ -350,7 +357,7 @@ FamCases == CASE Fam \in {"A", "B", "C", "D"} -> {}
               [] Fam = "devPattern" -> CasesDevPattern(0) [] Fam = "devKeepRemoved" -> CasesDevKeepRemoved(0) [] Fam = "devF13" -> CasesDevF13(0)
               [] Fam = "devDegree" -> CasesDevDegree(0) [] Fam = "devVerKey" -> CasesDevVerKey(0)
               [] Fam = "devAll" -> CasesDevMono(0) \cup CasesDevOrder(0) \cup CasesDevLinktype(0) \cup CasesDevFirstWins(0) \cup CasesDevAmbig(0) \cup CasesDevNonEdge(0)
-                                   \cup CasesDevPattern(0) \cup CasesDevKeepRemoved(0) \cup CasesDevVerKey(0) \cup CasesDevNoAtomResname(0) \cup CasesDevOrderedPairs(0) \cup CasesDevLastOfName(0) \cup CasesDevF13(0) \cup CasesDevDegree(0)
+                                   \cup CasesDevPattern(0) \cup CasesDevKeepRemoved(0) \cup CasesDevVerKey(0) \cup CasesDevNoAtomResname(0) \cup CasesDevOrderedPairs(0) \cup CasesDevLastOfName(0) \cup CasesDevRepBeforePattern(0) \cup CasesDevF13(0) \cup CasesDevDegree(0)
 
 (* ---- export for the S->I replay: one root state, one chunk state per residue graph (spread over the workers), one state per case *)
 GSeq == SetToSeq(FamGs)
